@@ -50,7 +50,9 @@ def run_scenario_once(binary, faults, idx):
     t0 = time.time()
     ms = lambda: int((time.time() - t0) * 1000)
     ls = None if seq[0] == 'refuse' else listener(port)
-    proc = subprocess.Popen([binary, '-t', '127.0.0.1:%d' % port, '--update=-1', '-i', 'e'], stdout=subprocess.PIPE, stderr=subprocess.DEVNULL)
+    # 'long' = 'frames' on a connection that stays up longer than delete_after (here 8 s), its aircraft heard every second
+    dopt = ['-d', '8'] if 'long' in seq else []
+    proc = subprocess.Popen([binary, '-t', '127.0.0.1:%d' % port, '--update=-1', '-i', 'e'] + dopt, stdout=subprocess.PIPE, stderr=subprocess.DEVNULL)
     buf = bytearray()
 
     def pump():
@@ -129,6 +131,15 @@ def run_scenario_once(binary, faults, idx):
                 conns.append(rec)
                 c_keep = c
                 break
+            if kind == 'long':
+                for _ in range(9):
+                    time.sleep(1.0)
+                    try:
+                        c.sendall(payload)
+                    except OSError:
+                        break
+                rec['kind'] = 'frames'
+                rec['held_ms'] = 9000
             time.sleep(0.3)                                  # let the decoder read what was sent
             nxt_refuse = seq[i + 1] == 'refuse'
             if nxt_refuse:
